@@ -113,6 +113,7 @@ impl Metric {
         Metric::BqManhattan,
         Metric::BqCosine,
     ];
+    #[allow(dead_code)]
     pub const F32: [Metric; 4] = [Metric::Euclidean, Metric::Manhattan, Metric::Cosine, Metric::Dot];
     pub const BQ: [Metric; 3] = [Metric::BqEuclidean, Metric::BqManhattan, Metric::BqCosine];
 
@@ -132,6 +133,7 @@ impl Metric {
         Metric::ALL.iter().copied().find(|m| m.name() == s)
     }
 
+    #[allow(dead_code)]
     pub fn is_bq(self) -> bool {
         matches!(self, Metric::BqEuclidean | Metric::BqManhattan | Metric::BqCosine)
     }
